@@ -982,6 +982,14 @@ class Interp:
             return (lambda *a, **k: None)        # base class outside the repository (object, CySolver, ...): no-op
         base = self.eval(e.value, fr)
         a = e.attr
+        if a in ('__name__', '__qualname__') and isinstance(base, TypeTag):
+            return base.name
+        if a in ('__name__', '__qualname__') and isinstance(base, tuple) and base and base[0] == 'class':
+            return base[2].name
+        if a in ('__name__', '__qualname__') and isinstance(base, FuncRef):
+            return base.node.name
+        if a == '__doc__' and isinstance(base, FuncRef):
+            return ast.get_docstring(base.node)
         if isinstance(base, Opaque):
             return Opaque(base.name + '.' + a)
         if isinstance(base, tuple) and len(base) == 3 and base[0] == 'class':
@@ -1432,6 +1440,9 @@ class Interp:
         return result
 
     def compare(self, op, a, b, e, fr):
+        if isinstance(op, (ast.Is, ast.IsNot)) and (isinstance(a, ArrBox) or isinstance(b, ArrBox)):
+            same_ = a is b                  # identity of array OBJECTS: two arrays holding equal values are not the same object, an array is never a number
+            return same_ if isinstance(op, ast.Is) else not same_
         a = unbox(a); b = unbox(b)
         if isinstance(a, TypeTag) or isinstance(b, TypeTag):
             if isinstance(op, (ast.Is, ast.Eq)): return a == b
@@ -1739,7 +1750,11 @@ class Interp:
             if hc is not None:
                 return hc(self, f, args, kwargs, e, fr)
             return self.construct(f, args, kwargs, e, fr)
-        raise AnalysisError(f'{fr.mod.where(e)}: call of unsupported callee `{ast.unparse(e.func)[:60]}` ({type(f).__name__})')
+        if isinstance(f, Obj) and isinstance(getattr(f, 'cls', None), tuple) and f.cls and f.cls[0] == 'class':
+            m_ = self.find_method(f.cls, '__call__')          # an instance of a repository class that defines __call__
+            if m_:
+                return self.call(m_[0], m_[1], args, kwargs, self_obj=f, owner=m_[2])
+        raise AnalysisError(f'{fr.mod.where(e) if (fr is not None and e is not None) else ""}: call of unsupported callee `{ast.unparse(e.func)[:60] if e is not None else f}` ({type(f).__name__})')
 
     def builtin(self, name, args, kwargs, e, fr):
         if args and isinstance(args[0], ArrBox) and name.split('.')[-1] in ('asarray', 'asanyarray', 'ascontiguousarray', 'atleast_1d', 'ravel', 'squeeze', 'reshape'):
@@ -1919,6 +1934,10 @@ class Interp:
                 names = [getattr(t_, 'name', '') for t_ in (args[1] if isinstance(args[1], (tuple, list)) else [args[1]])]
                 if any(str(n_).split('.')[-1] == 'ndarray' for n_ in names):
                     return True
+                if names and all(str(n_).split('.')[-1] in ('float', 'int', 'complex', 'bool', 'str', 'float64', 'floating', 'integer', 'Number', 'Real') for n_ in names):
+                    return False          # an array is none of the scalar types
+            if len(args) == 2 and args[0] is None:
+                return False              # (NoneType is never among the types the repository tests for)
             if len(args) == 2 and isinstance(args[0], Obj) and getattr(args[0], 'native', False) and args[0].cls is not None:
                 cands = args[1] if isinstance(args[1], (tuple, list)) and not (len(args[1]) == 3 and args[1][0] == 'class') else [args[1]]
                 if all(isinstance(c_, tuple) and len(c_) == 3 and c_[0] == 'class' for c_ in cands):
@@ -1928,6 +1947,8 @@ class Interp:
             a = args[0]
             if isinstance(a, int) and not isinstance(a, bool):
                 return TypeTag('int')       # a concrete Python int (an index, a degree): `type(x) == int` holds; it is still not an array
+            if isinstance(a, Obj) and isinstance(a.cls, tuple) and a.cls and a.cls[0] == 'class':
+                return a.cls                # an instance of a repository class: its class
             if isinstance(a, ArrBox) or (getattr(self, 'array_mode', False) and isinstance(a, Node) and concrete(a) is None):
                 return TypeTag('ndarray')   # array mode: every symbolic input stands for a numpy array (one generic element of it)
             return TypeTag('scalar' if isinstance(a, (Node, Fraction)) else type(a).__name__)
@@ -2049,6 +2070,14 @@ class Interp:
                 if nm == 'hasattr': return False
                 if len(args) > 2: return args[2]
                 raise RaiseSignal(ast.copy_location(ast.Raise(exc=ast.Name(id='AttributeError', ctx=ast.Load()), cause=None), e), f'AttributeError: module {args[0].dotted} has no attribute {args[1]!r}')
+        if nm in ('getattr', 'hasattr') and len(args) >= 2 and isinstance(args[0], FuncRef) and isinstance(args[1], str):
+            # attributes every function object has
+            table = {'__name__': args[0].node.name, '__qualname__': args[0].node.name, '__doc__': ast.get_docstring(args[0].node), '__module__': args[0].mod.name, '__wrapped__': None}
+            if args[1] in table and (args[1] != '__wrapped__'):
+                return True if nm == 'hasattr' else table[args[1]]
+            if nm == 'hasattr': return False
+            if len(args) > 2: return args[2]
+            raise RaiseSignal(ast.copy_location(ast.Raise(exc=ast.Name(id='AttributeError', ctx=ast.Load()), cause=None), e), f'AttributeError: function has no attribute {args[1]!r}')
         if nm in ('setattr', 'getattr', 'hasattr') and args and isinstance(args[0], Obj) and isinstance(args[1], str):
             o, a_ = args[0], args[1]
             if nm == 'setattr':
